@@ -22,11 +22,12 @@ type aeadState struct {
 }
 
 type aeadCase struct {
-	Kind  string                 `json:"kind"` // session | state
-	Sess  *sessions.SessionState `json:"sess,omitempty"`
-	State *aeadState             `json:"state,omitempty"`
-	Full  bool                   `json:"full"` // every bit / every truncation
-	Seed  int64                  `json:"seed"`
+	Kind   string                 `json:"kind"`   // session | state
+	Repeat int                    `json:"repeat"` // seal the same value this many more times with the same cipher
+	Sess   *sessions.SessionState `json:"sess,omitempty"`
+	State  *aeadState             `json:"state,omitempty"`
+	Full   bool                   `json:"full"` // every bit / every truncation
+	Seed   int64                  `json:"seed"`
 }
 
 const b64url = "ABCDEFGHIJKLMNOPQRSTUVWXYZabcdefghijklmnopqrstuvwxyz0123456789-_"
@@ -158,8 +159,13 @@ func aeadRun(c aeadCase, k1, k2 *aead.MiscreantCipher) M {
 			add("random-string", string(b))
 		}
 	}
+	// the same value sealed many more times by the same cipher: all strings distinct (nonces are never reused)
+	seen := map[string]bool{s1: true, s1b: true}
+	for i := 0; i < c.Repeat; i++ {
+		seen[seal(k1)] = true
+	}
 	return M{"kind": c.Kind, "genuine": []string{hx(s1), hx(s1b)}, "genuineOther": hx(s2), "openOtherKey": open(k2, s1),
-		"variants": variants, "raw": c}
+		"variants": variants, "repeatN": c.Repeat + 2, "repeatDistinct": len(seen), "raw": c}
 }
 
 func mustDec(s string) []byte {
@@ -213,7 +219,7 @@ func init() {
 			return
 		}
 		t0 := time.Unix(1700000000, 0).UTC()
-		emit(aeadCase{Kind: "state", State: &aeadState{SessionID: "0123456789abcdef", RedirectURI: "/"}, Full: true, Seed: 1})
+		emit(aeadCase{Kind: "state", State: &aeadState{SessionID: "0123456789abcdef", RedirectURI: "/"}, Full: true, Seed: 1, Repeat: 1200})
 		emit(aeadCase{Kind: "session", Sess: &sessions.SessionState{ProviderSlug: "idp", ProviderType: "sso", AccessToken: "at", RefreshToken: "rt",
 			RefreshDeadline: t0.Add(time.Hour), LifetimeDeadline: t0.Add(24 * time.Hour), ValidDeadline: t0.Add(time.Minute),
 			Email: "a@example.com", User: "a", Groups: []string{"g1", "g2"}, AuthorizedUpstream: "app.example.com"}, Full: true, Seed: 2})
